@@ -50,13 +50,14 @@ def oracle_jac(res, a, rhs, entry, where, rng, case, neq):
 
 
 def corr_jac(res, a, entry_texts, where, case):
-    # exact text of the species block (C02.jac_text_is_derivative is about this very string)
+    # exact text of every entry, temperature row included (C02.jac_text_is_derivative and
+    # C02.jac_thermal_text_is_derivative are about these very strings)
     if where.startswith("channel A") and a.model is not None and a.m_model_obj is not None:
         n = a.m_neq
         mt = a.m_model_obj.call("ode.jactext", a.nspec, a.rx, a.mods, a.heat, a.cool, a.aliases)
         k = 0
-        for r in range(a.nspec):
-            for c in range(a.nspec):
+        for r in range(n):
+            for c in range(n):
                 if mt[k] != "none" and entry_texts[r * n + c].strip() != mt[k]:
                     res.corr_disagreements += 1
                     res.violation("correspondence", f"{where}: text of entry ({r},{c}): implementation {entry_texts[r * n + c].strip()[:160]!r} != model text {mt[k][:160]!r}", case)
